@@ -798,6 +798,26 @@ def rule_sib2(ctx: Ctx) -> RuleResult:
                             "the name differs but nothing is attached on this path")), f.node.lineno)
     if n_impl < 3:
         raise AnalysisError(f"SIB-2: only {n_impl} implementations attach the original key")
+    # overrides that extend the inherited kwargs must keep them (the alias lives there)
+    for k in prog.subclasses(base, strict=True):
+        for f in k.methods.get("_get_field_kwargs", []):
+            sup = [n for n in walk_no_nested(f.node) if isinstance(n, ast.Assign) and isinstance(n.value, ast.Call)
+                   and norm(n.value.func).startswith("super()") and norm(n.value.func).endswith("._get_field_kwargs")]
+            if not sup:
+                continue
+            rr.instances += 1
+            var = norm(sup[0].targets[0])
+            rebinds = [n for n in walk_no_nested(f.node) if isinstance(n, (ast.Assign, ast.AugAssign)) and n is not sup[0]
+                       and any(norm(t) == var for t in (n.targets if isinstance(n, ast.Assign) else [n.target]))]
+            dels = [n for n in walk_no_nested(f.node) if isinstance(n, ast.Call) and isinstance(n.func, ast.Attribute)
+                    and norm(n.func.value) == var and n.func.attr in ("pop", "clear", "popitem")]
+            rets = [n for n in walk_no_nested(f.node) if isinstance(n, ast.Return) and n.value is not None]
+            ok = not rebinds and not dels and all(norm(r.value) == var for r in rets)
+            rr.ob(f.relpath, f.qualname, norm(sup[0]), "an override that adds field arguments returns the inherited ones too "
+                  "(the alias carrying the original key is among them)", DISCHARGED if ok else VIOLATED,
+                  "inherited dict is only extended and returned" if ok else
+                  (f"`{norm(rebinds[0])[:60]}` replaces the inherited arguments: the alias is lost on that path" if rebinds else
+                   "inherited arguments are removed or another value is returned"), f.node.lineno)
     return rr
 
 
@@ -863,4 +883,31 @@ def rule_fwd1(ctx: Ctx) -> RuleResult:
           mp.node.lineno)
     if not rets:
         raise AnalysisError("FWD-1: AbsoluteModelRef.to_typing_code has no (imports, code) return")
+    return rr
+
+
+def rule_inj5(ctx: Ctx) -> RuleResult:
+    """Emitted source is split / joined on '\\n' only: str.splitlines() also breaks on U+2028, U+2029, U+0085, form feed..."""
+    rr = RuleResult("INJ-5", "generated source text is re-indented line by line on '\\n' only", floor=1)
+    prog = ctx.prog
+    cone = ctx.cg.reachable([prog.func(BASE, "generate_code")], byname=True)
+    ind = prog.func("json_to_models/models/utils.py", "indent")
+    for f in sorted(cone | {ind}, key=lambda x: x.key):
+        if not f.relpath.startswith("json_to_models/models/"):
+            continue
+        for n in walk_no_nested(f.node):
+            if isinstance(n, ast.Call) and isinstance(n.func, ast.Attribute) and n.func.attr in ("splitlines", "split", "rsplit", "partition"):
+                if n.func.attr == "splitlines":
+                    rr.instances += 1
+                    rr.ob(f.relpath, f.qualname, norm(n)[:60], "a string literal in the emitted code may contain any character "
+                          "(keys, literal members, aliases are written raw): only '\\n' ends a source line", VIOLATED,
+                          "str.splitlines() also splits at U+2028 / U+2029 / U+0085 / FF / VT inside string literals: the "
+                          "literal is cut in two and the module does not compile", n.lineno)
+                elif f is ind and n.args and isinstance(n.args[0], ast.Constant):
+                    rr.instances += 1
+                    ok = n.args[0].value == "\n"
+                    rr.ob(f.relpath, f.qualname, norm(n)[:60], "indentation splits on the newline character", DISCHARGED if ok else VIOLATED,
+                          "split on '\\n'" if ok else f"splits on {n.args[0].value!r}", n.lineno)
+    if rr.instances == 0:
+        raise AnalysisError("INJ-5: indent() no longer splits its input (anchor vanished)")
     return rr
